@@ -66,6 +66,24 @@ func runC07(c *Config, r *Report) {
 		relabel(r, s, "R07.6")
 	}
 	copiersAlwaysCopy(ic, r, "R07.7")
+	pureLookups(ic, r, "R07.19")
+	// R07.20: = R04.13 on the generator of calls to compiled functions
+	{
+		sub := newReport("C04")
+		c04R13(ic, sub)
+		n := 0
+		for _, o := range sub.Obls {
+			if strings.HasPrefix(o.Key, "callBin/") {
+				o.Rule = "R07.20"
+				r.add(o)
+				n++
+			}
+		}
+		r.Errors = append(r.Errors, sub.Errors...)
+		if n == 0 {
+			r.Errorf("R07.20: no slot replacement under a definition test found in the generator of compiled calls")
+		}
+	}
 	c07R8(ic, r)
 	c07R10(ic, r)
 	c07R12(ic, r)
@@ -127,12 +145,62 @@ func c07R1(ic *IC, r *Report) {
 			}
 			return true
 		})
+		// the operands handed to an in-package helper that prepares the call
+		type handoff struct {
+			call *ast.CallExpr
+			g    *types.Func
+			pi   int
+		}
+		var handoffs []handoff
+		ast.Inspect(fl.Body, func(m ast.Node) bool {
+			c, ok := m.(*ast.CallExpr)
+			if !ok {
+				return true
+			}
+			g, ok := calleeOf(info, c).(*types.Func)
+			if !ok || g.Pkg() != ic.Pk.Types {
+				return true
+			}
+			for ai, a := range c.Args {
+				if id := identOf(a); id != nil && info.ObjectOf(id) == operands {
+					handoffs = append(handoffs, handoff{c, g, ai})
+					invokes = true
+				}
+			}
+			return true
+		})
 		if !invokes {
 			continue
 		}
 		n++
 		key := fmt.Sprintf("callBin/closure#%d/arguments", n)
 		var problems []string
+		if len(handoffs) > 0 {
+			for _, h := range handoffs {
+				gi := ic.G.Funcs[h.g]
+				sg := h.g.Type().(*types.Signature)
+				okH := false
+				if gi != nil && gi.Decl.Body != nil && h.pi < sg.Params().Len() {
+					pv := sg.Params().At(h.pi)
+					ast.Inspect(gi.Decl.Body, func(m ast.Node) bool {
+						rs, ok := m.(*ast.RangeStmt)
+						if !ok {
+							return true
+						}
+						if xid := identOf(rs.X); xid != nil && info.ObjectOf(xid) == pv && len(callsIn(info, rs.Body, true, "interp.getBinValue")) > 0 {
+							okH = true
+						}
+						return true
+					})
+				}
+				if !okH {
+					problems = append(problems, "the operands are handed to "+h.g.Name()+" ("+ic.pos(h.call.Pos())+"), which does not pass each of them through getBinValue")
+				}
+			}
+			r.Check(len(problems) == 0, "R07.1", key, ic.pos(fl.Pos()), "the helper preparing the call passes every operand through getBinValue",
+				"this variant of the compiled-call generator prepares its arguments differently from its siblings: "+strings.Join(dedupStr(problems), "; ")+": in that calling form (branch condition, assignment, return, go, defer) the host function receives a missing, stale or unwrapped argument")
+			continue
+		}
 		// the vector is made inside the closure
 		madeInside := false
 		var vec types.Object
@@ -778,6 +846,8 @@ func zeroTableAgreement(ic *IC, r *Report, rule string) {
 }
 
 func init() {
+	ruleText["R07.20"] = "= R04.13 on callBin: x, err := host.F() with err already declared assigns the existing err - the closure storing the results of a compiled call replaces a destination's slot by a new variable only under a test of node.redeclared"
+	ruleText["R07.19"] = "= R05.6 shared: the choice of the wrapper type handed to compiled code (getWrapper) and the method look-ups it rests on keep no state between calls - the wrapper depends on the interpreted type's own methods, not only on the host interface"
 	ruleText["R07.15"] = "= R05.8 shared (an interpreted struct handed to compiled code keeps its interpreted methods)"
 	ruleText["R07.16"] = "in a generator that consults the frame level of a node, every run-time closure addressing that node's slot (data[X.findex...]) takes the vector from getFrame(f, X.level): the destination of a result can live in an enclosing function's frame"
 	ruleText["R07.17"] = "Globals hands out the live variables: no value stored into the map it returns originates in reflect.New(T).Elem() (= R07.8 for the other accessor)"
